@@ -1,4 +1,6 @@
 import Mimium.Proofs.FfiConv
+import Mimium.Proofs.FfiType
+import Mimium.Proofs.FfiValueSerde
 /-!
 # C20 — Values and types survive the plugin FFI encoding
 
@@ -147,6 +149,30 @@ theorem C20_value_serde_refusals (c : ValCtor) :
     c.serTag = none ↔ (c = .Closure ∨ c = .ExternalFn ∨ c = .Store) := by
   cases c <;> simp [ValCtor.serTag]
 
+/-! ## `Type` under its hand-written serde impls (serialisable fragment) -/
+
+/-- every type the serializer accepts decodes to itself, consuming exactly its bytes -/
+theorem C20_type_roundtrip (t : Ty) (bs rest : Bytes) (hr : t.Rep) (hk : t.KeysValid) (h : encodeTy t = some bs) :
+    decodeTy (bs ++ rest) = some (t, rest) := by
+  rw [decodeTy_encodeTy t bs rest hr h, hk]
+
+/-- without the assumption on keys: only slotmap's key normalisation is applied -/
+theorem C20_type_roundtrip_norm (t : Ty) (bs rest : Bytes) (hr : t.Rep) (h : encodeTy t = some bs) :
+    decodeTy (bs ++ rest) = some (t.norm, rest) := decodeTy_encodeTy t bs rest hr h
+
+/-- `Type` serialisation errors exactly on `Intermediate` and `TypeScheme` -/
+theorem C20_type_refusal_iff (t : Ty) : encodeTy t = none ↔ (t = .intermediate ∨ ∃ id, t = .typeScheme id) :=
+  encodeTy_none_iff t
+
+/-! ## `Value` under its own hand-written serde impls (direct encoding, symbols as raw ids) -/
+
+theorem C20_value_serde_roundtrip (v : RawValue) (bs rest : Bytes) (hr : v.RepV) (h : encodeVal v = some bs) :
+    decodeValBytes (bs ++ rest) = some (v.normKeys, rest) := decodeValBytes_encode v bs rest hr h
+
+/-- the direct serializer fails exactly when a refused variant is reached -/
+theorem C20_value_serde_refusal_iff (v : RawValue) : encodeVal v = none ↔ v.directOk = false := by
+  unfold encodeVal; cases v.directOk <;> simp
+
 /-! ## non-vacuity -/
 
 example : (FfiValue.record [("é", .array [.number 0x7FF8000000000001, .taggedUnion 3 (.code ⟨7, 5⟩)]), ("", .tuple [])]).Rep := by
@@ -155,5 +181,9 @@ example : (FfiValue.record [("é", .array [.number 0x7FF8000000000001, .taggedUn
 
 example : decodeBytes (encode (.array [.string "aé", .unit])) = some (.array [.string "aé", .unit], []) :=
   C20_ffi_roundtrip _ (by simp [FfiValue.Rep, RepList, LenOk, strBytes]; decide) (by simp [FfiValue.KeysValid, KeysValidList])
+
+example : ∃ bs, encodeTy (.userSum 3 [(1, none), (2, some ⟨5, 7⟩)]) = some bs := ⟨_, rfl⟩
+example : (Ty.record [⟨1, ⟨0, 1⟩, true⟩]).KeysValid := by unfold Ty.KeysValid; decide
+example : ∃ bs, encodeVal (.taggedUnion 1 (.record [(4, .fixpoint 2 ⟨0, 1⟩)])) = some bs := ⟨_, rfl⟩
 
 end Mimium.Ffi
